@@ -192,6 +192,11 @@ def run_export(case):
         kw["degree"] = case["degree"] if isinstance(case["degree"], int) else tuple(case["degree"])
     if case.get("inv_degree") is not None:
         kw["inv_degree"] = case["inv_degree"]
+    if case.get("bbox_as_arg") and case["embed"] is None:
+        # the box handed to the export as an argument, the WCS itself carrying none
+        own = w.bounding_box
+        kw["bounding_box"] = tuple(tuple(float(v) for v in iv) for iv in own.bounding_box(order="F"))
+        w.bounding_box = None
     # the header's image axes 1, 2 are the two celestial pixel axes in increasing order of their position in the WCS
     flip = ix > iy
     if flip:
@@ -231,7 +236,7 @@ def run_export(case):
     gx, gy = np.meshgrid(np.linspace(xmin, xmax, n), np.linspace(ymin, ymax, n))
     gx, gy = gx.ravel(), gy.ravel()
     nin = w.forward_transform.n_inputs
-    centre = np.mean(np.array(w.bounding_box.bounding_box(order="F") if nin > 1 else [w.bounding_box.bounding_box()]), axis=1)
+    centre = np.mean(np.array(kw["bounding_box"] if "bounding_box" in kw else (w.bounding_box.bounding_box(order="F") if nin > 1 else [w.bounding_box.bounding_box()])), axis=1)
     args = [np.full_like(gx, centre[k]) for k in range(nin)]
     args[ix], args[iy] = gx, gy
     world = w(*args, with_bounding_box=False)
@@ -576,8 +581,16 @@ def gen(rng, tier):
         yield gen_search(rng)
     for _ in range(25 if q else 400):
         yield gen_reform(rng)
-    for _ in range(45 if q else 600):
-        yield gen_export(rng)
+    for k in range(45 if q else 600):
+        c = gen_export(rng)
+        if k % 4 == 1 and c["embed"] is None:
+            c["bbox_as_arg"] = True
+            if k % 8 == 1:
+                c["bbox"] = [c["bbox"][0], [c["bbox"][1][0], c["bbox"][1][0] + 0.5 * (c["bbox"][0][1] - c["bbox"][0][0])]]     # clearly not square
+                c["centre"] = [c["centre"][0], (c["bbox"][1][0] + c["bbox"][1][1]) / 2]
+                if c["crpix"] is not None:
+                    c["crpix"] = [c["crpix"][0], c["centre"][1] + 1]
+        yield c
     # pointing exactly at a celestial pole (the FITS default pole longitude is not 180 there), reference pixel on the pole
     for k in range(4 if q else 40):
         c = gen_export(rng)
